@@ -114,7 +114,8 @@ WellFormedRows(T) ==
            Encloses(a, b) \/ Encloses(b, a) \/ DisjointSpans(a, b)
     /\ \A a, b \in T : (a.corr >= 0 /\ a.corr = b.corr /\ a # b) => Side(a) # Side(b)
     /\ \A e \in T : e.stream >= 0 => e.stream > 0
-    /\ \A e \in HostEvents(T) : e.pid # 0 /\ e.tid # 0
+    \* host-thread events (a device activity that carries no correlation id is on the host side of the link predicate, but not on a host thread)
+    /\ \A e \in HostEvents(T) : e.stream = -1 => (e.pid # 0 /\ e.tid # 0)
     /\ \A e \in T : e.id = 0 => (Host(e) /\ e.corr = -1 /\ e.cat = "cpu_op")
 \* a whole trace file: additionally its first entry is a host operator (id 0 is the "absent partner" sentinel)
 WellFormed(T) == WellFormedRows(T) /\ \E e \in T : e.id = 0
